@@ -361,6 +361,27 @@ Fixpoint decon_nary (n:nat) (p:ppat) {struct n} : option (ppat * list ppat) :=
   | _ => Some (p, [])
   end end.
 
+(** [cls.unwrap(pattern)] / [cls.extract(pattern)] for ANY class [cls] (pattern.py:102-114), including the base class
+    [Pattern] (every pattern is one) and [Instantiate] itself (never, after simplification).  Classes are numbered
+    0 EVar 1 SVar 2 Symbol 3 Implies 4 App 5 Exists 6 Mu 7 MetaVar 8 ESubst 9 SSubst 10 Instantiate 11 Pattern.
+    The result lists the Pattern-valued fields in the order of their names ([vars()] sorted): the variable object of a
+    pending substitution is a Pattern too. *)
+Definition head_code (p:ppat) : N :=
+  match p with
+  | PEVar _ => 0 | PSVar _ => 1 | PSym _ => 2 | PImp _ _ => 3 | PApp _ _ => 4 | PEx _ _ => 5 | PMu _ _ => 6
+  | PMVar _ _ _ _ _ _ => 7 | PESub _ _ _ => 8 | PSSub _ _ _ => 9 | PInst _ _ => 10
+  end.
+Definition children (p:ppat) : list ppat :=
+  match p with
+  | PImp l r | PApp l r => [l; r]
+  | PEx _ q | PMu _ q => [q]
+  | PESub q x g => [q; g; PEVar x]
+  | PSSub q X g => [q; g; PSVar X]
+  | _ => []
+  end.
+Definition unwrap_cls (n:nat) (c:N) (p:ppat) : option (option (list ppat)) :=
+  bind (hnf n p) (fun h => Some (if N.eqb c 11 || N.eqb c (head_code h) then Some (children h) else None)).
+
 (** ================= BasicInterpreter rules (basic_interpreter.py:97-117) ================= *)
 (** inner None = AssertionError *)
 Definition basic_mp (n:nat) (left right:ppat) : option (option ppat) :=
